@@ -89,14 +89,15 @@ PROPS["C17"] = {
     "level": "model_checking",
     "jobs": [
         {"name": "pkg", "pkg": "goa.design/goa/v3/pkg", "pkgdir": "pkg", "pkgname": "goa", "harness_dir": "pkg",
-         "files": ["zz_verif_c17.go"], "quick": r"^VerifC17_", "thorough": r"^VerifC17T?_", "shards": {"Hostname5": 6}},
+         "files": ["zz_verif_c17.go"], "quick": r"^VerifC17_", "thorough": r"^VerifC17T?_", "shards": {"Hostname5": 6, "JSONFormat6": 7},
+         "limits": {"thorough": {"max_paths": 2000000, "timeout": 3600}}},
     ],
-    "bounds": {"quick": {"hostname_chars": "0..4 ASCII bytes", "ip_templates": 7, "pattern_values": "0..3 bytes x 5 patterns x 0-2 earlier calls"},
-               "thorough": {"hostname_chars": "0..5 ASCII bytes"}},
+    "bounds": {"quick": {"hostname_chars": "0..4 ASCII bytes", "ip_templates": 7, "pattern_values": "0..3 bytes x 5 patterns x 0-2 earlier calls", "pattern_cache": "two symbolic patterns ^ + 6 alphanumeric bytes + $", "json_text": "every byte string of 0..4 bytes against an RFC 8259 reference recogniser"},
+               "thorough": {"hostname_chars": "0..5 ASCII bytes", "json_text": "0..6 bytes"}},
     "assumptions": ["regexp matching on symbolic text is an exact simulation of the regexp/syntax program (one rune per byte: exact for ASCII-only classes / ASCII input)",
                     "net.ParseIP is executed symbolically from its own SSA (netip.ParseAddr)"],
-    "outside": ["exactness of time.Parse, mail.ParseAddress, uuid.Parse, net.ParseMAC/ParseCIDR, url.ParseRequestURI, json.Valid for their formats (stdlib parsers, not goa code)",
-                "host names longer than the bound; patterns other than the 5 sampled ones (cache keyed by the full pattern text is checked only for those)",
+    "outside": ["exactness of time.Parse, mail.ParseAddress, uuid.Parse, net.ParseMAC/ParseCIDR, url.ParseRequestURI for their formats (stdlib parsers, not goa code; json.Valid is interpreted from its own SSA and compared with a reference recogniser)",
+                "host names longer than the bound; JSON texts longer than the bound",
                 "1-16 goroutines on the pattern cache (lock discipline is part of C20)"],
     "manifest": {
         "text": "Bounded model checking of goa's own logic in pkg.ValidateFormat/ValidatePattern: the two regular expressions goa wrote (hostname, ipv4) are evaluated exactly on symbolic strings (NFA simulation of Go's regexp/syntax program as an SMT term) and compared with reference grammars (strict RFC 1035/1123 labels; dotted quad) for every ASCII string up to 4 (5) bytes; ip/ipv4/ipv6 are run with the real net.ParseIP on 7 template families and must satisfy ip = ipv4 xor ipv6 and ipv4 <=> dotted quad; ValidatePattern must agree with regexp matching for every value up to 3 bytes after any history of 0-2 earlier calls. Partial: the stdlib/third-party parsers behind the other formats are not decided.",
@@ -110,11 +111,13 @@ PROPS["C11"] = {
     "jobs": [
         {"name": "eval", "pkg": "goa.design/goa/v3/eval", "pkgdir": "eval", "pkgname": "eval", "harness_dir": "eval",
          "files": ["zz_verif_c11.go"], "quick": r"^VerifC11_", "thorough": r"^VerifC11T?_", "shards": {"RootsOrder4": 12}},
+        {"name": "expr", "pkg": "goa.design/goa/v3/expr", "pkgdir": "expr", "pkgname": "expr", "harness_dir": "expr",
+         "files": ["zz_verif_c11.go"], "quick": r"^VerifC11_", "thorough": r"^VerifC11T?_"},
     ],
-    "bounds": {"quick": {"roots": "2-3, every dependency matrix (self loops for 2), every registration order", "phases": "2 roots, 4 expressions (+1 registered late), every error-bit vector"},
+    "bounds": {"quick": {"roots": "2-3, every dependency matrix (self loops for 2), every registration order", "phases": "2 roots, 4 expressions (+1 registered late), every error-bit vector", "reported_errors": "3 expressions reporting through eval.ReportError from one shared or from distinct source lines, every failure vector", "builtin_roots": "expr.Root and expr.GeneratedResultTypes with 0-2 types generated so far, both registration orders"},
                "thorough": {"roots": "4 (all 4096 matrices x 24 orders)"}},
     "assumptions": ["Go map iteration inside Roots() runs in insertion order in the executor (the cycle check's verdict does not depend on it; not separately explored here)"],
-    "outside": ["5-6 roots", "errors raised through eval.ReportError (needs runtime.Caller); harness expressions record errors with Context.Record"],
+    "outside": ["5-6 roots", "the text of error locations (runtime.Caller is answered from SSA positions in the executor, by the Go runtime in replays)"],
     "manifest": {
         "text": "Bounded model checking of the real eval.Context.Roots/sortDependencies, Register, RunDSL, runSet/prepareSet/validateSet/finalizeSet: for every dependency matrix over 2-3 (thorough 4) roots and every registration order the solver-driven exploration shows that Roots() returns every root exactly once with all transitive dependencies first iff the graph is acyclic and an error otherwise; on an event log of instrumented roots/expressions it shows the global phase barrier, execution of expressions added and roots registered during execution, that all errors of a phase are returned together and that nothing is finalized after an execution or validation error, for every vector of error bits. The inputs are bits, so each explored path is one class of graphs the code cannot distinguish (closer to exhaustive case analysis; stated as such).",
         "note": "Trusted: gosym executor, z3. Two genuine defects found by this check were repaired (see known_findings.json 'fixed').",
@@ -304,7 +307,7 @@ PROPS["C20"] = {
     },
 }
 
-ALL_DESIGNS = ["v1", "v2", "v3", "v4", "v5", "v6", "d1", "a1", "a2", "a3", "a4", "a5", "e1", "e2", "s1", "s2", "w1", "w2", "p1", "c1", "c2", "c3", "c4", "c5"]
+ALL_DESIGNS = ["v1", "v2", "v3", "v4", "v5", "v6", "d1", "a1", "a2", "a3", "a4", "a5", "e1", "e2", "s1", "s2", "w1", "w2", "p1", "c1", "c2", "c3", "c4", "c5", "c6", "c7"]
 
 PROPS["C01"] = {
     "level": "other",
